@@ -13,7 +13,7 @@ import z3
 from . import extract, seqops
 from .core import Infeasible, PyRaise
 from .interp_stmt import _Return, _ItemsView
-from .values import (BoundMethod, Closure, DictCell, EnumerateV, ExcV, F32, F64, MapCell, MapElem, ObjCell, OldView, Opaque,
+from .values import (BoundMethod, Closure, DictCell, ElemListCell, EnumerateV, ExcV, F32, F64, MapCell, MapElem, ObjCell, OldView, Opaque,
                      RNE, RangeV, Ref, SeqCell, SeqV, SuperV, Sym, Unsupported, fpval, is_scalar, kind_of, mk, sort_of,
                      to_term)
 
@@ -173,6 +173,8 @@ class CallMixin:
                 return self._obj_attr(base, cell, name)
             if isinstance(cell, SeqCell):
                 return BoundMethod(("seq", name), base)
+            if isinstance(cell, ElemListCell):
+                return BoundMethod(("elist", name), base)
             if isinstance(cell, (DictCell, MapCell)):
                 return BoundMethod(("dict", name), base)
         if isinstance(base, SeqV):
